@@ -8,13 +8,22 @@ package main
 // tree nodes, effects become an action list, the way the function returns
 // becomes the exit.  Static calls (return stateX(s, c), return s.helper(...))
 // are inlined; `return s.step(s, c)` becomes XRedo.
+//
+// What is NOT translated but only recognised by name (s.found / s.foundAt, the step stack, the four context predicates,
+// the two read-a-body helpers, the error constructors) and the driver that interprets the trees (Scanner.Next,
+// processLexemeEvent, NewJApiScanner, ...) are modelled by hand in coq/model/ScannerSem.v; their declarations are
+// PINNED (pins.go, checked by checkPins below before anything is generated).  Byte predicates and byte functions used
+// in conditions (isWhitespace, IsNewLine, caseWhitespace, caseNewLine through otherByte) are evaluated from their
+// bodies over the 256 bytes; the constant EOF is read and must be 0; every function that works on a Scanner must be
+// accounted for (scannerFunctionsKnown).  DESIGN.md section 3.1 has the whole list.
 
 import (
-	"bytes"
 	"fmt"
 	"go/ast"
-	"go/printer"
+	"go/parser"
 	"go/token"
+	"os"
+	"path/filepath"
 	"sort"
 	"strconv"
 	"strings"
@@ -49,8 +58,10 @@ type scanTr struct {
 	consts map[string]int
 	states map[string]bool
 	evts   map[string]bool
+	// helpers whose bodies were translated because a step function returns through them
+	inlined map[string]bool
 	// byte classes of the helpers of step-helpers.go (isWhitespace, IsNewLine and the case* forms), derived from
-	// their bodies by evaluation over the 256 bytes
+	// their bodies by evaluation over the 256 bytes (predClass, caseClass), memoised
 	classes map[string][]int
 }
 
@@ -115,8 +126,7 @@ func (t *scanTr) evalBytePred(e ast.Expr, cname string, v int, depth int) bool {
 
 // evalPredFunc: func f(c byte) bool { return <pred> }
 func (t *scanTr) evalPredFunc(fd *ast.FuncDecl, v int, depth int) bool {
-	if fd.Type.Params == nil || len(fd.Type.Params.List) != 1 || len(fd.Type.Params.List[0].Names) != 1 || identName(fd.Type.Params.List[0].Type) != "byte" ||
-		fd.Type.Results == nil || len(fd.Type.Results.List) != 1 || identName(fd.Type.Results.List[0].Type) != "bool" || fd.Body == nil || len(fd.Body.List) != 1 {
+	if !isByteFunc(fd, "bool") || fd.Body == nil || len(fd.Body.List) != 1 {
 		t.p.bad(fd, "byte predicate %s: expected func(c byte) bool { return ... }", fd.Name.Name)
 	}
 	r, ok := fd.Body.List[0].(*ast.ReturnStmt)
@@ -126,50 +136,142 @@ func (t *scanTr) evalPredFunc(fd *ast.FuncDecl, v int, depth int) bool {
 	return t.evalBytePred(r.Results[0], fd.Type.Params.List[0].Names[0].Name, v, depth)
 }
 
-// deriveClasses fills t.classes for isWhitespace / IsNewLine (predicates) and caseWhitespace / caseNewLine
-// (func(c byte) byte { if P(c) { return c } else { return otherByte(c) } }, otherByte(c) != c for every c).
-func (t *scanTr) deriveClasses() {
-	t.classes = map[string][]int{}
-	for _, n := range []string{"isWhitespace", "IsNewLine"} {
-		fd, ok := t.p.funcs[n]
-		if !ok {
-			fatal("scanner: byte predicate %s not found", n)
-		}
-		var set []int
-		for v := 0; v < 256; v++ {
-			if t.evalPredFunc(fd, v, 0) {
-				set = append(set, v)
-			}
-		}
-		t.classes[n] = set
+// evalByteFunc evaluates func f(c byte) byte { ... } for the byte v.  Supported: `return e`, if / else over byte
+// predicates (evalBytePred), blocks; e is the parameter, a byte constant, + - & | ^ (modulo 256) or a call of another
+// byte function of the package.  Anything else is refused.
+func (t *scanTr) evalByteFunc(fd *ast.FuncDecl, v int, depth int) int {
+	if depth > 8 {
+		t.p.bad(fd, "byte function nested too deeply")
 	}
-	// otherByte must never return its argument
-	ob, ok := t.p.funcs["otherByte"]
+	if !isByteFunc(fd, "byte") || fd.Body == nil {
+		t.p.bad(fd, "byte function %s: expected func(c byte) byte", fd.Name.Name)
+	}
+	r, ok := t.evalByteStmts(fd.Body.List, fd.Type.Params.List[0].Names[0].Name, v, depth)
 	if !ok {
-		fatal("scanner: otherByte not found")
+		t.p.bad(fd, "byte function %s falls off its end", fd.Name.Name)
 	}
-	if got := nodeText(t.p, ob.Body); got != "{\n\tif b == 255 {\n\t\treturn 254\n\t} else {\n\t\treturn b + 1\n\t}\n}" {
-		t.p.bad(ob, "otherByte has an unexpected body: %q", got)
-	}
-	for cn, pn := range map[string]string{"caseWhitespace": "isWhitespace", "caseNewLine": "IsNewLine"} {
-		fd, ok := t.p.funcs[cn]
-		if !ok {
-			fatal("scanner: %s not found", cn)
-		}
-		want := "{\n\tif " + pn + "(c) {\n\t\treturn c\n\t} else {\n\t\treturn otherByte(c)\n\t}\n}"
-		if got := nodeText(t.p, fd.Body); got != want {
-			t.p.bad(fd, "%s has an unexpected body: %q", cn, got)
-		}
-		t.classes[cn] = t.classes[pn]
-	}
+	return r
 }
 
-func nodeText(p *pkg, n ast.Node) string {
-	var b bytes.Buffer
-	if err := printer.Fprint(&b, p.fset, n); err != nil {
-		fatal("%v", err)
+func (t *scanTr) evalByteStmts(ss []ast.Stmt, cname string, v int, depth int) (int, bool) {
+	for _, s := range ss {
+		switch x := s.(type) {
+		case *ast.ReturnStmt:
+			if len(x.Results) != 1 {
+				t.p.bad(s, "return in a byte function")
+			}
+			return t.evalByteExpr(x.Results[0], cname, v, depth), true
+		case *ast.BlockStmt:
+			if r, ok := t.evalByteStmts(x.List, cname, v, depth); ok {
+				return r, true
+			}
+		case *ast.IfStmt:
+			if x.Init != nil {
+				t.p.bad(s, "if with init in a byte function")
+			}
+			if t.evalBytePred(x.Cond, cname, v, depth) {
+				if r, ok := t.evalByteStmts(x.Body.List, cname, v, depth); ok {
+					return r, true
+				}
+			} else if x.Else != nil {
+				if r, ok := t.evalByteStmts([]ast.Stmt{x.Else}, cname, v, depth); ok {
+					return r, true
+				}
+			}
+		default:
+			t.p.bad(s, "statement %T in a byte function", s)
+		}
 	}
-	return b.String()
+	return 0, false
+}
+
+func (t *scanTr) evalByteExpr(e ast.Expr, cname string, v int, depth int) int {
+	switch x := e.(type) {
+	case *ast.ParenExpr:
+		return t.evalByteExpr(x.X, cname, v, depth)
+	case *ast.Ident:
+		if x.Name == cname {
+			return v
+		}
+	case *ast.UnaryExpr:
+		if x.Op == token.XOR {
+			return ^t.evalByteExpr(x.X, cname, v, depth) & 0xff
+		}
+	case *ast.BinaryExpr:
+		a, b := t.evalByteExpr(x.X, cname, v, depth), t.evalByteExpr(x.Y, cname, v, depth)
+		switch x.Op {
+		case token.ADD:
+			return (a + b) & 0xff
+		case token.SUB:
+			return (a - b) & 0xff
+		case token.AND:
+			return a & b
+		case token.OR:
+			return a | b
+		case token.XOR:
+			return a ^ b
+		}
+	case *ast.CallExpr:
+		if len(x.Args) == 1 {
+			if fd, ok := t.p.funcs[callName(x.Fun)]; ok && fd.Recv == nil {
+				return t.evalByteFunc(fd, t.evalByteExpr(x.Args[0], cname, v, depth), depth+1)
+			}
+		}
+	}
+	if k, ok := t.byteConst(e); ok {
+		return k
+	}
+	t.p.bad(e, "unsupported byte expression")
+	return 0
+}
+
+// isByteFunc: a package-level func(c byte) <result> with a named parameter
+func isByteFunc(fd *ast.FuncDecl, result string) bool {
+	return fd.Recv == nil && fd.Type.Params != nil && len(fd.Type.Params.List) == 1 && len(fd.Type.Params.List[0].Names) == 1 &&
+		identName(fd.Type.Params.List[0].Type) == "byte" && fd.Type.Results != nil && len(fd.Type.Results.List) == 1 &&
+		len(fd.Type.Results.List[0].Names) == 0 && identName(fd.Type.Results.List[0].Type) == result
+}
+
+// predClass: the bytes for which the package-level predicate `name` (func(c byte) bool) holds, by evaluation of its body
+// over the 256 bytes (isWhitespace, IsNewLine).
+func (t *scanTr) predClass(name string, at ast.Node) []int {
+	key := "pred " + name
+	if set, ok := t.classes[key]; ok {
+		return set
+	}
+	fd, ok := t.p.funcs[name]
+	if !ok || !isByteFunc(fd, "bool") {
+		t.p.bad(at, "byte predicate %s: no func(c byte) bool of the package", name)
+	}
+	set := []int{}
+	for v := 0; v < 256; v++ {
+		if t.evalPredFunc(fd, v, 0) {
+			set = append(set, v)
+		}
+	}
+	t.classes[key] = set
+	return set
+}
+
+// caseClass: the bytes c with f(c) == c for the package-level func f(c byte) byte: what `switch c { case f(c): }` tests
+// (caseWhitespace, caseNewLine, through otherByte), by evaluation of the bodies over the 256 bytes.
+func (t *scanTr) caseClass(name string, at ast.Node) []int {
+	key := "case " + name
+	if set, ok := t.classes[key]; ok {
+		return set
+	}
+	fd, ok := t.p.funcs[name]
+	if !ok || !isByteFunc(fd, "byte") {
+		t.p.bad(at, "case function %s: no func(c byte) byte of the package", name)
+	}
+	set := []int{}
+	for v := 0; v < 256; v++ {
+		if t.evalByteFunc(fd, v, 0) == v {
+			set = append(set, v)
+		}
+	}
+	t.classes[key] = set
+	return set
 }
 
 func stateCtor(name string) string {
@@ -251,11 +353,8 @@ func (t *scanTr) caseCond(e ast.Expr, st symState) string {
 	if v, ok := t.byteConst(e); ok {
 		return byteSet([]int{v})
 	}
-	if c, ok := e.(*ast.CallExpr); ok && len(c.Args) == 1 && isC(c.Args[0], st) {
-		switch identName(c.Fun) {
-		case "caseWhitespace", "caseNewLine":
-			return byteSet(append([]int{}, t.classes[identName(c.Fun)]...))
-		}
+	if c, ok := e.(*ast.CallExpr); ok && len(c.Args) == 1 && isC(c.Args[0], st) && identName(c.Fun) != "" {
+		return byteSet(append([]int{}, t.caseClass(identName(c.Fun), e)...))
 	}
 	t.p.bad(e, "case expression")
 	return ""
@@ -303,8 +402,8 @@ func (t *scanTr) branch(e ast.Expr, st symState, thenK, elseK func(symState) *tr
 		}
 	case *ast.CallExpr:
 		name := callName(x.Fun)
-		if (name == "IsNewLine" || name == "isWhitespace") && len(x.Args) == 1 && isC(x.Args[0], st) {
-			return node(byteSet(append([]int{}, t.classes[name]...)), thenK(st.clone()), elseK(st.clone()))
+		if identName(x.Fun) != "" && len(x.Args) == 1 && isC(x.Args[0], st) {
+			return node(byteSet(append([]int{}, t.predClass(name, e)...)), thenK(st.clone()), elseK(st.clone()))
 		}
 		flags := map[string]string{
 			"isDirective":                             "CIsDirective",
@@ -739,6 +838,11 @@ func (t *scanTr) inline(fd *ast.FuncDecl, call *ast.CallExpr, method string, st 
 	if st.depth >= maxInline {
 		t.p.bad(call, "static call chain deeper than %d (recursion?)", maxInline)
 	}
+	if method != "" {
+		t.inlined["Scanner."+method] = true
+	} else {
+		t.inlined[fd.Name.Name] = true
+	}
 	st2 := st.clone()
 	st2.depth++
 	st2.env = map[string]string{}
@@ -832,7 +936,7 @@ func buildScanner(repo string) *scanModel {
 		return m
 	}
 	p := loadPkg(repo, "scanner")
-	t := &scanTr{p: p, consts: map[string]int{}, states: map[string]bool{}, evts: map[string]bool{}}
+	t := &scanTr{p: p, consts: map[string]int{}, states: map[string]bool{}, evts: map[string]bool{}, inlined: map[string]bool{}}
 
 	// byte constants of constants.go
 	for _, f := range p.files {
@@ -853,7 +957,14 @@ func buildScanner(repo string) *scanModel {
 			}
 		}
 	}
-	t.deriveClasses()
+	t.classes = map[string][]int{}
+	// Next() feeds the pseudo byte EOF after the last byte and refuses it inside the file; the hand model of the loop
+	// (ScannerSem.main_loop, ENul) and the inferred typing know it as 0
+	if v, ok := t.consts["EOF"]; !ok || v != 0 {
+		p.bad(constSpec(p, "EOF"), "constant EOF: ScannerSem.main_loop models the end-of-file pseudo byte as 0")
+	}
+	checkPins(p, "scanner", "scanner")
+	t.errorsCarryCurIndex()
 	evts := constBlockNames(p, "lexeme-event.go", "LexemeEventType")
 	for _, e := range evts {
 		t.evts[e] = true
@@ -997,70 +1108,280 @@ Inductive tree : Set :=
 		fmt.Fprintf(&b, "  | %s =>\n    %s\n", stateCtor(n), tr.coq("    "))
 	}
 	b.WriteString("  end.\n")
+	t.scannerFunctionsKnown(repo)
 	m := &scanModel{stateNames: stateNames, trees: trees, initial: initial, begin: begin, ending: ending, single: single, pairs: pairs, text: b.String()}
 	scanCache[repo] = m
 	return m
 }
 
-// ToLexemeType: switch e { case A, B: return X ... default: panic }
+// ToLexemeType: func (e LexemeEventType) ToLexemeType() LexemeType { switch e { case A, B: return X ... default: panic(..) } }
+// An event without a case is one for which the Go function panics (evt_lexkind = None): the default clause must be
+// there and must be a panic, and nothing may follow the switch.
 func (t *scanTr) toLexemeType() map[string]string {
 	fd := t.p.funcs["LexemeEventType.ToLexemeType"]
-	if fd == nil || len(fd.Body.List) != 1 {
-		fatal("ToLexemeType shape")
+	if fd == nil {
+		fatal("LexemeEventType.ToLexemeType not found")
+	}
+	if len(fd.Body.List) != 1 || len(fd.Recv.List[0].Names) != 1 {
+		t.p.bad(fd, "ToLexemeType shape: a single switch over the receiver expected")
 	}
 	sw, ok := fd.Body.List[0].(*ast.SwitchStmt)
-	if !ok {
-		t.p.bad(fd, "ToLexemeType shape")
+	if !ok || sw.Init != nil || identName(sw.Tag) != fd.Recv.List[0].Names[0].Name {
+		t.p.bad(fd, "ToLexemeType shape: a single switch over the receiver expected")
 	}
 	out := map[string]string{}
+	sawDefault := false
 	for _, c := range sw.Body.List {
 		cc := c.(*ast.CaseClause)
 		if cc.List == nil {
+			sawDefault = true
+			isPanic := false
+			if len(cc.Body) == 1 {
+				if es, ok := cc.Body[0].(*ast.ExprStmt); ok {
+					if call, ok := es.X.(*ast.CallExpr); ok && identName(call.Fun) == "panic" {
+						isPanic = true
+					}
+				}
+			}
+			if !isPanic {
+				t.p.bad(cc, "ToLexemeType default clause: a panic expected (evt_lexkind = None stands for it)")
+			}
 			continue
 		}
 		if len(cc.Body) != 1 {
 			t.p.bad(cc, "ToLexemeType case body")
 		}
 		r, ok := cc.Body[0].(*ast.ReturnStmt)
-		if !ok || len(r.Results) != 1 {
+		if !ok || len(r.Results) != 1 || identName(r.Results[0]) == "" {
 			t.p.bad(cc, "ToLexemeType case body")
 		}
 		for _, e := range cc.List {
-			out[identName(e)] = identName(r.Results[0])
+			n := identName(e)
+			if !t.evts[n] {
+				t.p.bad(e, "ToLexemeType case expression: a LexemeEventType constant expected")
+			}
+			if _, dup := out[n]; dup {
+				t.p.bad(e, "ToLexemeType: %s occurs in two cases", n)
+			}
+			out[n] = identName(r.Results[0])
 		}
+	}
+	if !sawDefault {
+		t.p.bad(sw, "ToLexemeType has no default clause")
 	}
 	return out
 }
 
-// the case list `startType == A && eventType == B, ...` inside processLexemeEvent
+// the case list `startType == A && eventType == B, ...` inside processLexemeEvent: exactly one clause, every expression
+// of it of that form (the rest of the function is pinned with this clause blanked out: pins.go)
 func (t *scanTr) eventPairs() [][2]string {
 	fd := t.p.funcs["Scanner.processLexemeEvent"]
 	if fd == nil {
 		fatal("processLexemeEvent not found")
 	}
 	var out [][2]string
+	clauses := 0
+	pairOf := func(e ast.Expr) ([2]string, bool) {
+		be, ok := e.(*ast.BinaryExpr)
+		if !ok || be.Op != token.LAND {
+			return [2]string{}, false
+		}
+		l, ok1 := be.X.(*ast.BinaryExpr)
+		r, ok2 := be.Y.(*ast.BinaryExpr)
+		if ok1 && ok2 && l.Op == token.EQL && r.Op == token.EQL && identName(l.X) == "startType" && identName(r.X) == "eventType" &&
+			t.evts[identName(l.Y)] && t.evts[identName(r.Y)] {
+			return [2]string{identName(l.Y), identName(r.Y)}, true
+		}
+		return [2]string{}, false
+	}
 	ast.Inspect(fd.Body, func(n ast.Node) bool {
 		cc, ok := n.(*ast.CaseClause)
 		if !ok {
 			return true
 		}
+		some := false
 		for _, e := range cc.List {
-			be, ok := e.(*ast.BinaryExpr)
-			if !ok || be.Op != token.LAND {
-				continue
+			if _, ok := pairOf(e); ok {
+				some = true
 			}
-			l, ok1 := be.X.(*ast.BinaryExpr)
-			r, ok2 := be.Y.(*ast.BinaryExpr)
-			if ok1 && ok2 && l.Op == token.EQL && r.Op == token.EQL && identName(l.X) == "startType" && identName(r.X) == "eventType" {
-				out = append(out, [2]string{identName(l.Y), identName(r.Y)})
+		}
+		if !some {
+			return true
+		}
+		clauses++
+		for _, e := range cc.List {
+			pr, ok := pairOf(e)
+			if !ok {
+				t.p.bad(e, "processLexemeEvent: `startType == <begin event> && eventType == <end event>` expected in the clause of the accepted pairs")
+			}
+			out = append(out, pr)
+		}
+		return true
+	})
+	if clauses != 1 {
+		t.p.bad(fd, "processLexemeEvent: %d clauses of begin/end pairs (one expected)", clauses)
+	}
+	return out
+}
+
+// constSpec: the value spec that declares the constant (for positions in messages); the package itself when absent
+func constSpec(p *pkg, name string) ast.Node {
+	for _, fn := range sortedFileNames(p) {
+		for _, d := range p.files[fn].Decls {
+			if gd, ok := d.(*ast.GenDecl); ok && gd.Tok == token.CONST {
+				for _, s := range gd.Specs {
+					for _, n := range s.(*ast.ValueSpec).Names {
+						if n.Name == name {
+							return n
+						}
+					}
+				}
+			}
+		}
+	}
+	for _, fn := range sortedFileNames(p) {
+		return p.files[fn]
+	}
+	return nil
+}
+
+// errorsCarryCurIndex: japiErrorUnexpectedChar (exit XErr (EUnexpected ..)) builds a message the model does not
+// represent; what the model says about it is the POSITION: every return of the function must be
+// recv.japiError(<message>, recv.curIndex) (japiError and japiErrorBasic are pinned).
+func (t *scanTr) errorsCarryCurIndex() {
+	fd := t.p.funcs["Scanner.japiErrorUnexpectedChar"]
+	if fd == nil {
+		p := t.p
+		panic(unsupported{token.Position{Filename: p.dir}, "Scanner.japiErrorUnexpectedChar not found (exit XErr (EUnexpected ..) of the scanner table)"})
+	}
+	if len(fd.Recv.List[0].Names) != 1 || len(fd.Body.List) == 0 {
+		t.p.bad(fd, "japiErrorUnexpectedChar shape")
+	}
+	recv := fd.Recv.List[0].Names[0].Name
+	if _, ok := fd.Body.List[len(fd.Body.List)-1].(*ast.ReturnStmt); !ok {
+		t.p.bad(fd, "japiErrorUnexpectedChar: the last statement is not a return")
+	}
+	ast.Inspect(fd.Body, func(n ast.Node) bool {
+		switch x := n.(type) {
+		case *ast.FuncLit:
+			t.p.bad(x, "japiErrorUnexpectedChar: function literal")
+		case *ast.AssignStmt:
+			for _, l := range x.Lhs {
+				if _, ok := l.(*ast.Ident); !ok {
+					t.p.bad(x, "japiErrorUnexpectedChar: assignment to something that is not a local variable")
+				}
+			}
+		case *ast.ReturnStmt:
+			ok := false
+			if len(x.Results) == 1 {
+				if call, isCall := x.Results[0].(*ast.CallExpr); isCall && len(call.Args) == 2 {
+					if sel, isSel := call.Fun.(*ast.SelectorExpr); isSel && identName(sel.X) == recv && sel.Sel.Name == "japiError" {
+						if a, isSel := call.Args[1].(*ast.SelectorExpr); isSel && identName(a.X) == recv && a.Sel.Name == "curIndex" {
+							ok = true
+						}
+					}
+				}
+			}
+			if !ok {
+				t.p.bad(x, "japiErrorUnexpectedChar: `return %s.japiError(<message>, %s.curIndex)` expected (ScannerSem.dispatch: XErr e => Err (pos g') (EStep e))", recv, recv)
 			}
 		}
 		return true
 	})
-	if len(out) == 0 {
-		fatal("no begin/end pairs found in processLexemeEvent")
+}
+
+// scannerFunctionsKnown: closed world.  Every function of package scanner that works on a Scanner (method of Scanner, or
+// plain function with a *Scanner parameter)
+// must be one the model accounts for: a step function or a helper translated with it, a pinned function (pins.go), the
+// error constructors, a read-only accessor (`return s.<field>`), or a setter of scannerUncalledSetters that nothing in
+// the module calls.  A new method that moves curIndex or touches the stacks would otherwise be invisible to the model.
+var scannerUncalledSetters = map[string]bool{"Scanner.SetCurrentIndex": true}
+
+func (t *scanTr) scannerFunctionsKnown(repo string) {
+	pinned := map[string]bool{}
+	for _, pn := range pins {
+		if pn.pkg == "scanner" {
+			for _, d := range pn.decls {
+				pinned[d.name] = true
+			}
+		}
 	}
-	return out
+	isScannerType := func(e ast.Expr) bool {
+		if st, ok := e.(*ast.StarExpr); ok {
+			e = st.X
+		}
+		return identName(e) == "Scanner"
+	}
+	var names []string
+	for n := range t.p.funcs {
+		names = append(names, n)
+	}
+	sort.Strings(names)
+	for _, name := range names {
+		fd := t.p.funcs[name]
+		onScanner := fd.Recv != nil && len(fd.Recv.List) == 1 && isScannerType(fd.Recv.List[0].Type)
+		if fd.Recv == nil && fd.Type.Params != nil {
+			for _, f := range fd.Type.Params.List {
+				if isScannerType(f.Type) {
+					onScanner = true
+				}
+			}
+		}
+		if !onScanner || t.states[name] || t.inlined[name] || pinned[name] || name == "Scanner.japiErrorUnexpectedChar" {
+			continue
+		}
+		if scannerUncalledSetters[name] {
+			if pos, found := callerInModule(repo, fd.Name.Name); found {
+				panic(unsupported{pos, fmt.Sprintf("call of %s: the scanner model (coq/model/ScannerSem.v, Core.v) has no counterpart of this setter; it is tolerated only while nothing in the module calls it", name)})
+			}
+			continue
+		}
+		// read-only accessor
+		if fd.Recv != nil && len(fd.Recv.List[0].Names) == 1 && fd.Body != nil && len(fd.Body.List) == 1 {
+			if r, ok := fd.Body.List[0].(*ast.ReturnStmt); ok && len(r.Results) == 1 {
+				if sel, ok := r.Results[0].(*ast.SelectorExpr); ok && identName(sel.X) == fd.Recv.List[0].Names[0].Name {
+					continue
+				}
+			}
+		}
+		t.p.bad(fd, "function %s works on the Scanner but is neither a step function, nor a helper a step function returns through, "+
+			"nor pinned in go2coq/pins.go, nor a read-only accessor: the scanner model (coq/model/ScannerSem.v) does not know it", name)
+	}
+}
+
+// callerInModule: the first call `x.<method>(...)` in a non-test Go file of the repository
+func callerInModule(repo, method string) (token.Position, bool) {
+	var res token.Position
+	found := false
+	filepath.WalkDir(repo, func(path string, d os.DirEntry, err error) error {
+		if err != nil || found {
+			return nil
+		}
+		if d.IsDir() {
+			if n := d.Name(); path != repo && (strings.HasPrefix(n, ".") || n == "testdata" || n == "vendor") {
+				return filepath.SkipDir
+			}
+			return nil
+		}
+		if !strings.HasSuffix(path, ".go") || strings.HasSuffix(path, "_test.go") {
+			return nil
+		}
+		fset := token.NewFileSet()
+		f, perr := parser.ParseFile(fset, path, nil, 0)
+		if perr != nil {
+			return nil
+		}
+		ast.Inspect(f, func(n ast.Node) bool {
+			if call, ok := n.(*ast.CallExpr); ok && !found {
+				if sel, ok := call.Fun.(*ast.SelectorExpr); ok && sel.Sel.Name == method {
+					res, found = fset.Position(call.Pos()), true
+				}
+			}
+			return !found
+		})
+		return nil
+	})
+	return res, found
 }
 
 func (t *scanTr) initialState() string {
